@@ -374,7 +374,7 @@ func (p *popCtl) setLeaf(kv *fix.KeyValue, v tv, text []byte) error {
 }
 
 // populate fills items (built from ds) and appends the expected wire fields to *exp.
-func (p *popCtl) populate(ds []*nd, items []fix.Item, depth int, exp *[]field, forceFirst bool) {
+func (p *popCtl) populate(ds []*nd, items []fix.Item, depth int, exp *[]field, forceFirst bool, eidx int) {
 	for i, d := range ds {
 		switch d.n {
 		case nLeaf:
@@ -395,17 +395,17 @@ func (p *popCtl) populate(ds []*nd, items []fix.Item, depth int, exp *[]field, f
 			}
 			*exp = append(*exp, field{d.tag, text})
 		case nComp:
-			p.populate(d.kids, items[i].(*fix.Component).Items(), depth, exp, false)
+			p.populate(d.kids, items[i].(*fix.Component).Items(), depth, exp, false, eidx)
 		case nGroup:
 			g := items[i].(*fix.Group)
-			n := p.cnt[depth%3]
+			n := innerCount(p.cnt[depth%3], depth, eidx)
 			// the count field gives the number of entries that carry at least one field
 			var sub []field
 			nonEmpty := 0
 			for e := 0; e < n; e++ {
 				entry := g.AsTemplate()
 				var ef []field
-				p.populate(d.kids, entry, depth+1, &ef, p.first)
+				p.populate(d.kids, entry, depth+1, &ef, p.first, e)
 				g.AddEntry(entry)
 				if len(ef) > 0 {
 					nonEmpty++
@@ -420,11 +420,20 @@ func (p *popCtl) populate(ds []*nd, items []fix.Item, depth int, exp *[]field, f
 	}
 }
 
+// innerCount: nested groups get different entry counts in different outer entries (odd outer
+// entries have one entry less), so that a count read from the wrong place is visible.
+func innerCount(n, depth, eidx int) int {
+	if depth >= 1 && n >= 2 && eidx%2 == 1 {
+		return n - 1
+	}
+	return n
+}
+
 func (p *popCtl) populateMessage(s shape, m *fix.Message) []field {
 	var exp []field
-	p.populate(s.hdr, m.Header().Items(), 0, &exp, false)
-	p.populate(s.body, m.Body(), 0, &exp, false)
-	p.populate(s.trl, m.Trailer().Items(), 0, &exp, false)
+	p.populate(s.hdr, m.Header().Items(), 0, &exp, false, 0)
+	p.populate(s.body, m.Body(), 0, &exp, false, 0)
+	p.populate(s.trl, m.Trailer().Items(), 0, &exp, false, 0)
 	return exp
 }
 
